@@ -126,16 +126,22 @@ type SetCfg struct {
 type Cfg struct {
 	// Late - SetMode / SetMapKeysToLower and the root's unknown mode / require-order are applied AFTER the commands
 	// were declared (the order of these calls is not part of the documented protocol; the outcome must not depend on it)
-	Late  bool      `json:"late"`
-	Mode  int       `json:"mode"`
-	Lower bool      `json:"lower"`
-	Prog  Tok       `json:"prog"` // the name the program appears under in help texts and completion (os.Args[0] or Self)
-	Self  bool      `json:"self"` // the name is given with Self(name, description) instead of coming from os.Args[0]
-	Desc  Tok       `json:"desc"`
-	Nodes []NodeCfg `json:"nodes"`
-	Opts  []OptCfg  `json:"opts"`
-	Env   []EnvCfg  `json:"env"`
-	Sets  []SetCfg  `json:"sets"`
+	Late bool `json:"late"`
+	// Inherit (builder only, ignored when Late) - a command whose unknown mode / require-order equals its parent's is not
+	// given the setting explicitly: it relies on what NewCommand takes over from the parent
+	Inherit bool `json:"inherit"`
+	// OptsLate (builder only, needs the help command, which re-propagates the options) - the options of a level are
+	// declared after its commands were created
+	OptsLate bool      `json:"optslate"`
+	Mode     int       `json:"mode"`
+	Lower    bool      `json:"lower"`
+	Prog     Tok       `json:"prog"` // the name the program appears under in help texts and completion (os.Args[0] or Self)
+	Self     bool      `json:"self"` // the name is given with Self(name, description) instead of coming from os.Args[0]
+	Desc     Tok       `json:"desc"`
+	Nodes    []NodeCfg `json:"nodes"`
+	Opts     []OptCfg  `json:"opts"`
+	Env      []EnvCfg  `json:"env"`
+	Sets     []SetCfg  `json:"sets"`
 }
 
 type OrcEntry struct {
